@@ -619,6 +619,30 @@ static int do_iter(char const *in, char const *prefix, int nb, int maxnodes)
             for (int i = 1; i <= N; ++i) { member[i] = (st[0].root == i || st[0].par[i]) ? 1 : 0; }
             materialise(&st[0]);
             apply(v[1], v[2], member, &st[1]);
+            /* the live structure the real operation left behind, walked in both directions: exactly the member keys, ascending */
+            {
+                int cnt = 0, okf = 1, prevk = 0, want = 0;
+                NODE *cur;
+                for (int i = 1; i <= N; ++i) { want += member[i] ? 1 : 0; }
+                FOREACH(cur, &root)
+                {
+                    int id = id_of(cur);
+                    if (++cnt > N + 1) { break; }
+                    if (id < 1 || id > N || !member[id] || id <= prevk) { okf = 0; }
+                    prevk = id;
+                }
+                if (cnt != want) { okf = 0; }
+                cnt = 0; prevk = N + 1;
+                FOREACH_REVERSE(cur, &root)
+                {
+                    int id = id_of(cur);
+                    if (++cnt > N + 1) { break; }
+                    if (id < 1 || id > N || !member[id] || id >= prevk) { okf = 0; }
+                    prevk = id;
+                }
+                if (cnt != want) { okf = 0; }
+                if (!okf && n_mismatch++ < 10) { printf("MISMATCH {\"what\":\"live-iteration\",\"op\":%d,\"k\":%d,\"visited\":%d,\"members\":%d}\n", v[1], v[2], cnt, want); }
+            }
         }
         for (int w = 0; w < 2; ++w)
         {
